@@ -325,6 +325,12 @@ pub fn run(outdir: &Path, tier: &str, seed: u64, shards: usize, _replay: Option<
         ("partial default on a non-null input cycle".into(), "input Ping { pong: Pong! note: String }\ninput Pong { ping: Ping! }\ntype Query { x(p: Ping): Int }\n".into(), "query Q($ping: Ping = { note: \"start\" }) { x(p: $ping) }".into()),
         ("partial default on a self-referential required member".into(), "input Chain { next: Chain! tag: Int }\ntype Query { x(c: Chain): Int }\n".into(), "query Q($c: Chain = { tag: 1 }) { x(c: $c) }".into()),
         ("nested partial default".into(), "input Ping { pong: Pong! note: String }\ninput Pong { ping: Ping! }\ntype Query { x(p: Ping): Int }\n".into(), "query Q($ping: Ping = { pong: { } }) { x(p: $ping) }".into()),
+        // interfaces that implement interfaces, in a cycle (self, mutual), with an object leading into the cycle
+        // and a selection on ANOTHER abstract type, so that "does this object implement that interface" is asked
+        ("interface implements itself".into(), "interface S implements S { id: ID }\ninterface Other { id: ID }\ntype T implements S { id: ID }\ntype U implements Other { id: ID }\ntype Query { o: Other t: T s: S }\n".into(), "query Q { o { __typename id } }".into()),
+        ("interface implements cycle of two".into(), "interface A implements B { id: ID }\ninterface B implements A { id: ID }\ninterface Other { id: ID }\ntype T implements A { id: ID }\ntype U implements Other { id: ID }\ntype Query { o: Other t: T a: A }\n".into(), "query Q { o { __typename id ... on U { id } } }".into()),
+        ("interface implements cycle, spread under the object".into(), "interface A implements B { id: ID }\ninterface B implements A { id: ID }\ninterface Other { id: ID }\ntype T implements A & Other { id: ID }\ntype Query { t: T a: A }\n".into(), "query Q { t { id ... on Other { id } } a { __typename id } }".into()),
+        ("interface hierarchy, no cycle".into(), "interface Node { id: ID }\ninterface Named implements Node { id: ID name: String }\ntype T implements Named & Node { id: ID name: String }\ntype Query { n: Node m: Named }\n".into(), "query Q { n { __typename id } m { __typename name ... on T { id } } }".into()),
     ];
     for (kind, schema, query) in raws {
         n += 1;
@@ -346,7 +352,7 @@ pub fn run(outdir: &Path, tier: &str, seed: u64, shards: usize, _replay: Option<
         preludes: vec![],
     };
     cs.write(outdir, shards, json!({
-        "rule": "adversarial grammar, each input in its own worker process, generated twice there through the path interface (exit status, signal, 10 s wall limit, same outcome class on repeat): fragment-spread cycles of length 1-6 on an object, an interface and a union, with and without __typename, the spread at the top level of the fragment / under a field / under an inline fragment; fragments that reach a cycle without being on it; input-type cycles incl. non-null ones; selection nesting 8/32/64 and raw 512 / 2000; type expressions of depth 64 / 1000; an interface without implementors; self- and mutually referential unions; syntactically broken documents and schemas. Survivors are also compared with the model's outcome class.",
+        "rule": "adversarial grammar, each input in its own worker process, generated twice there through the path interface (exit status, signal, 10 s wall limit, same outcome class on repeat): fragment-spread cycles of length 1-6 on an object, an interface and a union, with and without __typename, the spread at the top level of the fragment / under a field / under an inline fragment; fragments that reach a cycle without being on it; input-type cycles incl. non-null ones; selection nesting 8/32/64 and raw 512 / 2000; type expressions of depth 64 / 1000; an interface without implementors; self- and mutually referential unions; interfaces implementing interfaces in a cycle; syntactically broken documents and schemas. Survivors are also compared with the model's outcome class.",
         "distribution": dist, "samples": samples,
     }));
     runner::cleanup_scratch();
